@@ -416,6 +416,19 @@ class ServerFacts:
                         out[verb] = sorted(attrs)[0] if len(attrs) == 1 else "mixed:" + ",".join(sorted(attrs))
         return out
 
+    def user_deletes(self):
+        """attributes of `connection` that `Server.user` deletes unconditionally before it looks the new login up"""
+        node = self.methods["user"]
+        out = []
+        for st in node.body:
+            if isinstance(st, ast.Delete):
+                for t in st.targets:
+                    if isinstance(t, ast.Attribute) and isinstance(t.value, ast.Name) and t.value.id == "connection":
+                        out.append(t.attr)
+            if "get_user" in ast.unparse(st):
+                break
+        return out
+
     def censor_commands(self):
         node = self.methods["parse_command"]
         args = node.args
@@ -570,6 +583,9 @@ def gen_server():
     lines.append("def Verb.offsetField : Verb → String")
     for v in verbs:
         lines.append("  | .%s => %s" % (lid(v), lean_str(of.get(v, ""))))
+    lines.append("")
+    lines.append("/-- what `Server.user` deletes from the connection before it looks the new login up -/")
+    lines.append("def userDeletes : List String := [%s]" % ", ".join(lean_str(x) for x in F.user_deletes()))
     lines.append("")
     lines.append("/-- the predicate guarding `int(rest)` in the REST handler: `rest.<pred>()` -/")
     lines.append("def restPredicate : String := %s" % lean_str(F.rest_predicate()))
